@@ -18,6 +18,7 @@ var shapes = []shapeSpec{
 	{"s4", "plain", "/s4", "closures (use, by-reference use, arrow fn, returned closure)"},
 	{"s5", "mw", "/s5", "closure + class middleware around the handler"},
 	{"s6", "err", "/s6", "handler throws for odd n, onError answers"},
+	{"s7", "cap", "/s7", "handler, closure middleware and start-up helper closure write to arrays/scalars captured by value (use)"},
 }
 
 // round is one load case: K requests with distinct parameters served at the same time by
